@@ -68,12 +68,13 @@ def get (e : Env) (name : Bytes) : EvalM Obj :=
       | none => pure Obj.undefined
       | some o => walkNames e o rest
 
-/-- `AddAttributes` loads without marking; `none` when `MapToObject` fails -/
+/-- `AddAttributes` loads without marking, every attribute under its own name (aliases only stand
+    for names inside the expression); `none` when `MapToObject` fails -/
 def load (e : Env) : List (Bytes × AV) → Option Env
   | [] => some e
   | (k, v) :: rest => do
     let o ← v.toObj
-    load { e with store := ainsert (e.resolveName k) o e.store } rest
+    load { e with store := ainsert k o e.store } rest
 
 def mark (e : Env) (n : Bytes) : Env :=
   if e.modified.contains n then e else { e with modified := e.modified ++ [n] }
@@ -115,10 +116,9 @@ def compact (e : Env) : Env := { e with store := e.store.map fun (k, o) => (k, o
 def apply (e : Env) (item : Item) (exclude : List Bytes) : Item :=
   e.modified.foldl (fun it k =>
     if exclude.contains k then it else
-    let name := match alookup k e.aliases with | some a => a | none => k
     match alookup k e.store with
-    | none => aerase name it
-    | some o => ainsert name o.toAV it) item
+    | none => aerase k it
+    | some o => ainsert k o.toAV it) item
 
 end Env
 end Minidyn
